@@ -419,6 +419,8 @@ class EquationSolver(object):
             for var, eqn in vars_to_compute:
                 try:
                     val = eval(eqn, globals(), initial)
+                    if val != val or val in (float('inf'), float('-inf')):
+                        raise ValueError('Variable {0} is not a finite number: {1}'.format(var, val))
                     initial[var] = val
                     decoration_values.append((var, val))
                 except NameError:
